@@ -23,7 +23,7 @@ from __future__ import annotations
 
 import math
 from collections.abc import Callable, Iterator, Mapping, Sequence
-from functools import cached_property, reduce
+from functools import cached_property
 from typing import Any, cast, TYPE_CHECKING, TypeAlias
 
 import numpy as np
@@ -315,7 +315,9 @@ class CircuitOperation(ops.Operation):
         unitaries = [protocols.unitary(op) for op in self._mapped_any_loop.all_operations()]
         dim = max((u.shape for u in unitaries), default=(1,))[0]
         u = np.eye(dim, dtype=np.complex128)
-        u = reduce(lambda u1, u2: np.dot(u1, u2, out=u), reversed(unitaries), u)
+        for m in unitaries:
+            # Operations on no qubits (global phases) have a 1x1 matrix.
+            u = m @ u if m.shape == u.shape else m[0, 0] * u
 
         if self.repetitions != 1:
             u = np.linalg.matrix_power(u, abs(self.repetitions))
